@@ -53,7 +53,7 @@ echo "end %s $rc" >> %s
 exit $rc
 `, h.crontab, queueLine, h.name, logFile, dir, h.name, dir, h.name, dir, h.name, h.name, logFile)
 	p := filepath.Join(dir, "hooks", h.name+".sh")
-	if err := os.WriteFile(p, []byte(script), 0o755); err != nil {
+	if err := writeScript(p, []byte(script), 0o755); err != nil {
 		return err
 	}
 	if failOnce {
